@@ -11,7 +11,8 @@ fn frag(x: u64) -> u32 {
 }
 
 // @harness props=C21 tier=quick timeout=300 desc="insert(v): membership becomes old ∪ {v}; returns whether v was new; invariant kept"
-harness!(tm_insert, 15, {
+harness!(tm_insert, 6, {
+    roaring::verif_set_universe();
     let mut m = RowIdTreeMap::verif_any(2, 2);
     let v: u64 = vnd::any();
     let x: u64 = vnd::any();
@@ -24,7 +25,8 @@ harness!(tm_insert, 15, {
 });
 
 // @harness props=C21 tier=quick timeout=300 desc="remove(v): membership becomes old minus {v} (also out of a full fragment); returns whether v was present"
-harness!(tm_remove, 15, {
+harness!(tm_remove, 6, {
+    roaring::verif_set_universe();
     let mut m = RowIdTreeMap::verif_any(2, 2);
     let v: u64 = vnd::any();
     let x: u64 = vnd::any();
@@ -36,95 +38,9 @@ harness!(tm_remove, 15, {
     assert!(m.verif_wf());
 });
 
-fn in_bounds(lo: Bound<u64>, hi: Bound<u64>, x: u64) -> bool {
-    (match lo {
-        Bound::Included(s) => x >= s,
-        Bound::Excluded(s) => x > s,
-        Bound::Unbounded => true,
-    }) && (match hi {
-        Bound::Included(e) => x <= e,
-        Bound::Excluded(e) => x < e,
-        Bound::Unbounded => true,
-    })
-}
-
-fn any_bound(kind: u8, v: u64) -> Bound<u64> {
-    match kind {
-        0 => Bound::Included(v),
-        1 => Bound::Excluded(v),
-        _ => Bound::Unbounded,
-    }
-}
-
-/// first and last element of the range, if it is not empty (written independently of the code)
-fn range_ends(lo: Bound<u64>, hi: Bound<u64>) -> Option<(u64, u64)> {
-    let first = match lo {
-        Bound::Included(s) => s,
-        Bound::Excluded(s) => {
-            if s == u64::MAX {
-                return None;
-            }
-            s + 1
-        }
-        Bound::Unbounded => 0,
-    };
-    let last = match hi {
-        Bound::Included(e) => e,
-        Bound::Excluded(e) => {
-            if e == 0 {
-                return None;
-            }
-            e - 1
-        }
-        Bound::Unbounded => u64::MAX,
-    };
-    if first <= last {
-        Some((first, last))
-    } else {
-        None
-    }
-}
-
-fn insert_range_case(max_frag: usize) {
-    let mut m = RowIdTreeMap::verif_any(max_frag, 1);
-    let (lk, hk): (u8, u8) = (vnd::any(), vnd::any());
-    vnd::assume(lk <= 2 && hk <= 2);
-    let (lv, hv): (u64, u64) = (vnd::any(), vnd::any());
-    let (lo, hi) = (any_bound(lk, lv), any_bound(hk, hv));
-    let ends = range_ends(lo, hi);
-    // bound: the range touches at most two fragments (the loop runs once per fragment)
-    if let Some((f, l)) = ends {
-        vnd::assume(frag(l) - frag(f) <= 1);
-    }
-    let x: u64 = vnd::any();
-    let had_x = m.contains(x);
-    let was_empty = m.verif_fragments() == 0;
-    let n = m.insert_range((lo, hi));
-    vnd::cover!(ends.is_none(), "an empty range");
-    vnd::cover!(ends.is_some() && in_bounds(lo, hi, x) && !had_x, "a new member inside the range");
-    vnd::cover!(matches!(ends, Some((f, l)) if frag(f) != frag(l)), "a range crossing a fragment boundary");
-    assert!(m.contains(x) == (had_x || in_bounds(lo, hi, x)));
-    if was_empty {
-        match ends {
-            None => assert!(n == 0),
-            Some((f, l)) => assert!(l - f == u64::MAX || n == l - f + 1),
-        }
-    }
-    assert!(m.verif_wf());
-}
-
-// @harness props=C21 tier=quick timeout=600 desc="insert_range with every bound kind into an empty map: membership = range, count = range length, empty ranges insert nothing, 32-bit boundaries"
-harness!(tm_insert_range_empty_map, 15, {
-    insert_range_case(0);
-});
-
-// @harness props=C21 tier=thorough timeout=1200 desc="insert_range into an arbitrary map (full fragments are kept, partial ones extended)"
-harness!(tm_insert_range_any_map, 15, {
-    insert_range_case(2);
-});
-
 // @harness props=C21 tier=quick timeout=300 desc="insert_fragment / insert_bitmap / get_fragment_bitmap / retain_fragments"
-harness!(tm_fragment_ops, 15, {
+harness!(tm_fragment_ops, 6, {
+    roaring::verif_set_universe();
     let m0 = RowIdTreeMap::verif_any(2, 2);
     let f: u32 = vnd::any();
     let x: u64 = vnd::any();
@@ -148,7 +64,8 @@ harness!(tm_fragment_ops, 15, {
 });
 
 // @harness props=C21 tier=quick timeout=600 desc="a |= b is set union (full markers absorb), invariant kept"
-harness!(tm_union, 15, {
+harness!(tm_union, 6, {
+    roaring::verif_set_universe();
     let mut a = RowIdTreeMap::verif_any(2, 1);
     let b = RowIdTreeMap::verif_any(2, 1);
     let x: u64 = vnd::any();
@@ -160,7 +77,8 @@ harness!(tm_union, 15, {
 });
 
 // @harness props=C21 tier=quick timeout=600 desc="a &= b is set intersection; result empty iff disjoint; invariant kept"
-harness!(tm_intersection, 15, {
+harness!(tm_intersection, 6, {
+    roaring::verif_set_universe();
     let mut a = RowIdTreeMap::verif_any(2, 1);
     let b = RowIdTreeMap::verif_any(2, 1);
     let x: u64 = vnd::any();
@@ -181,7 +99,8 @@ harness!(tm_intersection, 15, {
 });
 
 // @harness props=C21 tier=quick timeout=600 desc="a -= b is set difference (also out of full fragments); invariant kept"
-harness!(tm_difference, 15, {
+harness!(tm_difference, 6, {
+    roaring::verif_set_universe();
     let mut a = RowIdTreeMap::verif_any(2, 1);
     let b = RowIdTreeMap::verif_any(2, 1);
     let x: u64 = vnd::any();
@@ -194,7 +113,8 @@ harness!(tm_difference, 15, {
 });
 
 // @harness props=C21 tier=quick timeout=300 desc="len/is_empty agree with membership: None iff a full marker; Some(0)/is_empty iff no member; a witness member exists otherwise"
-harness!(tm_len_empty, 15, {
+harness!(tm_len_empty, 6, {
+    roaring::verif_set_universe();
     let m = RowIdTreeMap::verif_any(2, 2);
     let x: u64 = vnd::any();
     let l = m.len();
@@ -210,7 +130,8 @@ harness!(tm_len_empty, 15, {
 });
 
 // @harness props=C21 tier=thorough timeout=900 desc="len is additive: |a ∪ b| + |a ∩ b| = |a| + |b| when no full markers"
-harness!(tm_len_inclusion_exclusion, 15, {
+harness!(tm_len_inclusion_exclusion, 6, {
+    roaring::verif_set_universe();
     let a = RowIdTreeMap::verif_any(2, 1);
     let b = RowIdTreeMap::verif_any(2, 1);
     vnd::assume(!a.verif_has_full() && !b.verif_has_full());
@@ -225,7 +146,8 @@ harness!(tm_len_inclusion_exclusion, 15, {
 });
 
 // @harness props=C21 tier=thorough timeout=900 desc="mask(): allow list intersects, block list subtracts"
-harness!(tm_apply_mask, 15, {
+harness!(tm_apply_mask, 6, {
+    roaring::verif_set_universe();
     let mut a = RowIdTreeMap::verif_any(1, 1);
     let allow = if vnd::any::<bool>() { Some(RowIdTreeMap::verif_any(1, 1)) } else { None };
     let block = if vnd::any::<bool>() { Some(RowIdTreeMap::verif_any(1, 1)) } else { None };
@@ -239,7 +161,8 @@ harness!(tm_apply_mask, 15, {
 });
 
 // @harness props=C21 tier=thorough timeout=900 desc="from_iter / extend over 2 ids build exactly those ids"
-harness!(tm_from_iter_extend, 15, {
+harness!(tm_from_iter_extend, 6, {
+    roaring::verif_set_universe();
     let ids: [u64; 2] = vnd::any();
     let x: u64 = vnd::any();
     let m = RowIdTreeMap::from_iter(ids.iter());
@@ -252,7 +175,8 @@ harness!(tm_from_iter_extend, 15, {
 });
 
 // @harness props=C21 tier=thorough timeout=1200 desc="union_all of two maps is their union"
-harness!(tm_union_all, 15, {
+harness!(tm_union_all, 6, {
+    roaring::verif_set_universe();
     let a = RowIdTreeMap::verif_any(1, 1);
     let b = RowIdTreeMap::verif_any(1, 1);
     let x: u64 = vnd::any();
@@ -265,6 +189,7 @@ harness!(tm_union_all, 15, {
 
 // @harness props=C21 tier=thorough timeout=1200 desc="row_ids(): None iff a full marker, otherwise yields exactly the members in ascending order (<=3 members)"
 harness!(tm_row_ids, 8, {
+    roaring::verif_set_universe();
     let m = RowIdTreeMap::verif_any(2, 1);
     vnd::assume(m.verif_has_full() || m.len().map(|l| l <= 3).unwrap_or(false));
     let x: u64 = vnd::any();
